@@ -71,7 +71,7 @@ func Run(tier string, seed uint64, modelPath, repo string, out *res.Result) erro
 	out.Rule = "P1: declarations = (harvested test literals | property x 1-4 atoms drawn from the atoms the real validator accepts for it, " +
 		"atoms = every keyword literal of the validators + lengths in all units, %, numbers, colours, strings, urls, functions) x 2 spelling variants; " +
 		"P2: four-sides / border-radius / flex / generic shorthands with 1-5 component values vs explicit longhands and vs the model; background shorthands with 1-4 layers (image, position/size, repeat, attachment, one or two boxes per layer, colour on the last) vs the explicit longhand lists; " +
-		"P3: blocks of 2-6 declarations with 1-3 invalid ones interleaved; P4: var() graphs on a probe element (worker process). " +
+		"P2c: `||` shorthands (columns, outline, column-rule, border-*, border, list-style, text-decoration, flex-flow) in every component order incl. auto/normal/none vs the longhands; `!important` with whitespace/comments around it through a sheet and a style attribute; P3: blocks of 2-6 declarations with 1-3 invalid ones interleaved; P4: var() graphs on a probe element (worker process), a third of them also through a style attribute. " +
 		"non-trivial = the base declaration is accepted and the variant differs textually (P1), the shorthand is accepted (P2), " +
 		"at least one valid and one invalid declaration (P3), at least one var() reference (P4); distinct by full input text"
 
@@ -94,6 +94,8 @@ func Run(tier string, seed uint64, modelPath, repo string, out *res.Result) erro
 		return err
 	}
 	rn.backgrounds(r.Sub(), nShort/4)
+	rn.orderInvariance(r.Sub(), nShort/3)
+	rn.importantComments(r.Sub())
 	if err := rn.blocks(r.Sub(), nBlocks); err != nil {
 		return err
 	}
@@ -781,6 +783,23 @@ func (rn *runner) vars(r *rng.R, n int) error {
 			}
 			rn.add("judge", "judge:var-substitution", docA, gs, strings.Join(wantSpec, " | ")+"   via "+specText,
 				"computed style differs from textual substitution of the custom properties (fallback when undefined; invalid at computed-value time -> inherited/initial when cyclic or ill-typed)", key, sub.Seed())
+		}
+		// the same declarations in a style attribute
+		if sub.P(1, 3) {
+			lower := ""
+			if c.Lower != "" {
+				lower = c.Prop + ": " + c.Lower + "; "
+			}
+			docAttr := "<style>html{ " + varsBlock(c.HTMLVars) + "} body{ color: #123456; font-family: Inheritedfam; text-align: center }</style><p style=\"" +
+				attrEscape(lower+varsBlock(c.PVars)+c.Prop+": "+c.Value) + "\"></p>"
+			gotAttr, bad := rn.styles(docAttr, c.Observe)
+			rn.out.Hit("var:style-attribute")
+			if bad != "" {
+				rn.add("crash", "crash:var", docAttr, bad, "", "computing the style of the probe element crashed", strings.SplitN(bad, ":", 3)[0], sub.Seed())
+			} else if strings.Join(gotAttr, " | ") != gs {
+				rn.add("judge", "judge:style-attribute", docA+"  ~~  "+docAttr, strings.Join(gotAttr, " | "), gs,
+					"the same declarations compute to another value in a style attribute than in a sheet", "", sub.Seed())
+			}
 		}
 		// the same document spelled differently
 		if sub.P(1, 3) {
